@@ -155,6 +155,45 @@ def live_nodes(prog, f):
         stack.extend(ast.iter_child_nodes(n))
 
 
+REDUCTIONS = {'sum', 'min', 'max', 'count', 'nunique', 'mean', 'any', 'all', 'prod', 'median'}
+
+
+def unguarded_item_calls(prog, f):
+    """`.item()` applied directly to a pandas reduction (x.sum().item()) with neither a hasattr guard nor an
+    AttributeError handler around it.  (Contradiction rule: the repository guards .item() at its other sites.)"""
+    from .flow import GuardMap
+    out = []
+    gm = None
+    for n in live_nodes(prog, f):
+        if not (isinstance(n, ast.Call) and isinstance(n.func, ast.Attribute) and n.func.attr == 'item' and not n.args):
+            continue
+        recv = n.func.value
+        if not (isinstance(recv, ast.Call) and isinstance(recv.func, ast.Attribute) and recv.func.attr in REDUCTIONS):
+            continue
+        if gm is None:
+            gm = GuardMap(f.node)
+        ch = gm.chain(n) or ()
+        ok = False
+        for g in ch:
+            if g.kind == 'if' and 'hasattr' in ast.unparse(g.test) and "'item'" in ast.unparse(g.test):
+                ok = True
+        if not ok and not _in_try_catching(f.node, n, ('AttributeError', 'Exception', 'BaseException')):
+            out.append(n)
+    return out
+
+
+def _in_try_catching(fnode, node, names):
+    for t in ast.walk(fnode):
+        if isinstance(t, ast.Try) and any(x is node for b in t.body for x in ast.walk(b)):
+            for h in t.handlers:
+                if h.type is None:
+                    return True
+                hs = [h.type] if not isinstance(h.type, ast.Tuple) else h.type.elts
+                if any(ast.unparse(x).split('.')[-1] in names for x in hs):
+                    return True
+    return False
+
+
 def undef(prog, f):
     """Name loads that no scope defines -> [(node, name)]"""
     mod = f.mod
@@ -489,6 +528,11 @@ def run_ief(run, rule_prefix, roots, triage=None, noreturn=(), exclude_modules=(
                     and node.func.attr not in prog._bymeth:
                 probs.append(('DENYAPI', node.func.attr, node,
                               '.%s() exists neither on Python 3 dicts nor on pandas >= 2 objects: AttributeError when this line runs' % node.func.attr))
+        for node in unguarded_item_calls(prog, f):
+            probs.append(('NOITEM', norm(node)[:50], node,
+                          '.item() is called on the result of a pandas reduction without the guard the repository uses at its other '
+                          '.item() sites (hasattr(x, "item") / except AttributeError / py_val): for nullable and Arrow-backed columns '
+                          'the reduction returns a plain Python number: AttributeError when this line runs'))
         if selfattr:
             for node, nm in missing_self_methods(prog, f):
                 probs.append(('NOMETHOD', nm, node, 'self.%s(...) is called but no class in the hierarchy defines %s: AttributeError when this line runs' % (nm, nm)))
